@@ -140,6 +140,23 @@ theorem num_eq (rs : RSt) (hz : rs.modulus = 0) (a : Bytes) :
   · simp [h]
   · simp [h, hz]
 
+theorem msgNum_eq (rs : RSt) (hz : rs.modulus = 0) (a : Bytes) :
+    rs.msgNum a = if a.takeWhile isDigit = [] ∨ endsOk a = false then none else some (decVal (a.takeWhile isDigit)) := by
+  unfold RSt.msgNum msgArg endsOk
+  cases a.dropWhile isDigit with
+  | nil =>
+    simp only [number_takeWhile]
+    by_cases h : a.takeWhile isDigit = []
+    · simp [h]
+    · simp [h, hz]
+  | cons c t =>
+    by_cases hc : c = SP
+    · simp only [hc, if_true, number_takeWhile]
+      by_cases h : a.takeWhile isDigit = []
+      · simp [h]
+      · simp [h, hz]
+    · simp [hc]
+
 /-- msgno() and the reference's `valid` agree; a refusal is a "-ERR …" line -/
 theorem valid_msgno (s : Sess) (rs : RSt) (h : Sim s rs) (arg : Bytes) :
     match msgno s arg with
@@ -148,11 +165,12 @@ theorem valid_msgno (s : Sess) (rs : RSt) (h : Sim s rs) (arg : Bytes) :
     | .err e => rs.valid arg = none ∧ ∃ t, e = errSp ++ t ++ [CR, LF] ∧ LF ∉ t := by
   rw [msgno_eq_spec]
   unfold msgnoSpec RSt.valid
-  rw [num_eq rs h.modz]
+  rw [msgNum_eq rs h.modz]
   simp only
+  generalize endsOk arg = eo
   generalize arg.takeWhile isDigit = ds
   have hlen := h.rel.length
-  by_cases h0 : ds = []
+  by_cases h0 : ds = [] ∨ eo = false
   · simp only [h0, if_true]
     exact ⟨trivial, str "syntax error", rfl, noLF_syntax⟩
   simp only [h0, if_false]
